@@ -14,8 +14,12 @@ for slug in "$@"; do
   run=$(grep -m1 -o 'cargo test --offline -p .*' $f | tr -d '`'); crate=$(echo $run | grep -o -- '-p [a-z-]*' | head -1 | awk '{print $2}')
   git checkout -q -- .; git clean -qfd -e out -e target -e PROPERTY.md
   git apply $ch/patch.diff || { echo "SEED $P change$i: patch does not apply"; continue; }
-  c1=RED; cargo test --offline -p $crate > $ch/suite_with.log 2>&1 && c1="green ($(grep -c '\.\.\. ok$' $ch/suite_with.log) ok)"
-  c2=RED; cargo test --offline -p $crate --features $crate/serde > $ch/suite_with_serde.log 2>&1 && c2="green ($(grep -c '\.\.\. ok$' $ch/suite_with_serde.log) ok)"
+  # the demo's crate plus every crate the patch touches (the root crate is `linfa`)
+  crates="$crate $(grep '^+++ b/' $ch/patch.diff | sed 's|^+++ b/||' | awk -F/ '{ if ($1=="algorithms") print $2; else print "linfa" }' | sort -u | tr '\n' ' ')"
+  crates=$(echo $crates | tr ' ' '\n' | sort -u | tr '\n' ' ')
+  pk=""; ft=""; for c in $crates; do pk="$pk -p $c"; ft="$ft $c/serde"; done
+  c1=RED; cargo test --offline $pk > $ch/suite_with.log 2>&1 && c1="green ($(grep -c '\.\.\. ok$' $ch/suite_with.log) ok: $crates)"
+  c2=RED; cargo test --offline $pk --features "$ft" > $ch/suite_with_serde.log 2>&1 && c2="green ($(grep -c '\.\.\. ok$' $ch/suite_with_serde.log) ok)"
   [ -f $ch/demo_cargo_toml.diff ] && git apply $ch/demo_cargo_toml.diff
   mkdir -p $(dirname $dest); cp $f $dest
   c3="PASS (unexpected)"; $run > $ch/demo_with.log 2>&1 || c3="fail (expected)"
